@@ -154,6 +154,21 @@ fn diag_signature(warm: &CliResult, cd: &[vproj::Diag], wd: &[vproj::Diag]) -> &
     let errs = |v: &[vproj::Diag]| -> Vec<vproj::Diag> {
         v.iter().filter(|x| x.severity == "error").cloned().collect()
     };
+    // warnings that only the fresh run reports, all in files for which the warm
+    // run still reports a (re-derived) unused_variable warning, nothing extra on
+    // the warm side
+    let lost: Vec<&vproj::Diag> = cd.iter().filter(|x| !wd.contains(x)).collect();
+    let extra = wd.iter().filter(|x| !cd.contains(x)).count();
+    if !lost.is_empty()
+        && extra == 0
+        && lost.iter().all(|l| {
+            l.severity == "warning"
+                && l.code != "unused_variable"
+                && wd.iter().any(|w| w.code == "unused_variable" && w.file == l.file)
+        })
+    {
+        return "diagnostics/cached-warnings-overwritten-by-rederived-subset";
+    }
     if warm.code != Some(0) && errs(cd) == errs(wd) && !errs(cd).iter().all(|e| e.code.is_empty()) {
         // the run failed on an error; only the accompanying warnings differ
         "diagnostics/warnings-differ-on-run-aborted-by-error"
